@@ -21,6 +21,7 @@ pub fn dispatch(op: &str, case: &Value) -> Value {
         "response" => op_response(case),
         "response_headers" => op_response_headers(case),
         "ws_handshake" => op_ws_handshake(case),
+        "typed_request" => op_typed_request(case),
         _ => json!({"error": format!("unknown op {}", op)}),
     }
 }
@@ -794,5 +795,82 @@ fn op_ws_handshake(case: &Value) -> Value {
             let accept_ok = r.status == 101 && want.is_some() && acc == vec![want.clone().unwrap()] && conn == vec!["upgrade"] && upg == vec!["websocket"];
             json!({"status": r.status, "accept": acc, "expected_accept": want, "accept_ok": accept_ok})
         }
+    }
+}
+
+// ---------------------------------------------------------------------------------- C10 / C09
+static ENTERED: AtomicUsize = AtomicUsize::new(0);
+
+#[derive(Deserialize, Serialize, JsonSchema, Debug, Clone, PartialEq)]
+struct TPath { a: u8, b: i8, c: u32 }
+#[derive(Deserialize, Serialize, JsonSchema, Debug, Clone, PartialEq)]
+enum Color { Red, Green }
+#[derive(Deserialize, Serialize, JsonSchema, Debug, Clone, PartialEq)]
+struct TQuery { n: u16, color: Option<Color>, flag: Option<bool>, #[serde(default)] s: String }
+#[derive(Deserialize, Serialize, JsonSchema, Debug, Clone, PartialEq)]
+struct TBody { to: String, amount: u32, opt: Option<i64> }
+
+#[endpoint { method = GET, path = "/p/{a}/{b}/{c}" }]
+async fn t_path(_r: RequestContext<()>, p: Path<TPath>) -> Result<HttpResponseOk<TPath>, HttpError> {
+    ENTERED.fetch_add(1, Ordering::SeqCst);
+    Ok(HttpResponseOk(p.into_inner()))
+}
+#[endpoint { method = GET, path = "/q" }]
+async fn t_query(_r: RequestContext<()>, q: Query<TQuery>) -> Result<HttpResponseOk<TQuery>, HttpError> {
+    ENTERED.fetch_add(1, Ordering::SeqCst);
+    Ok(HttpResponseOk(q.into_inner()))
+}
+#[endpoint { method = POST, path = "/json" }]
+async fn t_json(_r: RequestContext<()>, b: TypedBody<TBody>) -> Result<HttpResponseOk<TBody>, HttpError> {
+    ENTERED.fetch_add(1, Ordering::SeqCst);
+    Ok(HttpResponseOk(b.into_inner()))
+}
+#[endpoint { method = POST, path = "/form", content_type = "application/x-www-form-urlencoded" }]
+async fn t_form(_r: RequestContext<()>, b: TypedBody<TBody>) -> Result<HttpResponseOk<TBody>, HttpError> {
+    ENTERED.fetch_add(1, Ordering::SeqCst);
+    Ok(HttpResponseOk(b.into_inner()))
+}
+#[endpoint { method = POST, path = "/text" }]
+async fn t_text(_r: RequestContext<()>, b: UntypedBody) -> Result<HttpResponseOk<String>, HttpError> {
+    ENTERED.fetch_add(1, Ordering::SeqCst);
+    Ok(HttpResponseOk(b.as_str()?.to_string()))
+}
+
+fn typed_api() -> ApiDescription<()> {
+    let mut api = ApiDescription::new();
+    api.register(t_path).unwrap();
+    api.register(t_query).unwrap();
+    api.register(t_json).unwrap();
+    api.register(t_form).unwrap();
+    api.register(t_text).unwrap();
+    api
+}
+
+/// {"op":"typed_request","method":"POST","target":"/json","content_type":s|null,"body":s|[bytes]}
+/// -> {"status":n,"entered":k,"body":json}
+fn op_typed_request(case: &Value) -> Value {
+    let method = case["method"].as_str().unwrap_or("GET");
+    let target = case["target"].as_str().unwrap_or("/");
+    let body: Vec<u8> = match &case["body"] {
+        Value::String(s) => s.as_bytes().to_vec(),
+        Value::Array(a) => a.iter().map(|x| x.as_u64().unwrap() as u8).collect(),
+        _ => vec![],
+    };
+    let mut rq = format!("{} {} HTTP/1.1\r\nHost: replay\r\nConnection: close\r\n", method, target).into_bytes();
+    if let Some(ct) = case["content_type"].as_str() {
+        rq.extend_from_slice(format!("Content-Type: {}\r\n", ct).as_bytes());
+    }
+    if !body.is_empty() || method != "GET" {
+        rq.extend_from_slice(format!("Content-Length: {}\r\n", body.len()).as_bytes());
+    }
+    rq.extend_from_slice(b"\r\n");
+    rq.extend_from_slice(&body);
+    ENTERED.store(0, Ordering::SeqCst);
+    let resp = crate::live::serve_raw(typed_api(), 4096, vec![vec![rq]]);
+    let entered = ENTERED.load(Ordering::SeqCst);
+    match resp.into_iter().next().flatten() {
+        None => json!({"status": 0, "entered": entered}),
+        Some(r) => json!({"status": r.status, "entered": entered, "body": serde_json::from_slice::<Value>(&r.body).unwrap_or(Value::Null),
+                          "x_request_id": r.header_all("x-request-id")}),
     }
 }
